@@ -29,8 +29,12 @@ Definition keys_eqb (a b : list ident) : bool := list_eqb N.eqb (sortN a) (sortN
 Definition kv_eqb (p q : ident * Q) : bool := N.eqb (fst p) (fst q) && Qeq_bool (snd p) (snd q).
 Definition dict_seq_eqb (a b : list (ident * Q)) : bool := list_eqb kv_eqb (sortKV a) (sortKV b).
 
+(* first argument: the model's value, second: the implementation's.  The model keeps the substituted tree as it is;
+   sympy simplifies it and may cancel a variable (p4 - p4 = 0), so in an environment that lacks that variable the
+   implementation's expression still has a value where the model's has none.  The converse (the implementation's
+   expression needs a variable the model's does not mention) is a disagreement. *)
 Definition optq_eqb (a b : option Q) : bool :=
-  match a, b with Some x, Some y => Qeq_bool x y | None, None => true | _, _ => false end.
+  match a, b with Some x, Some y => Qeq_bool x y | None, _ => true | Some _, None => false end.
 Fixpoint insKL (p : ident * list (option Q)) (l : list (ident * list (option Q))) :=
   match l with [] => [p] | q :: r => if N.leb (fst p) (fst q) then p :: l else q :: insKL p r end.
 Definition sortKL (l : list (ident * list (option Q))) := fold_right insKL [] l.
